@@ -720,6 +720,14 @@ def check_tables(ctx):
 # ====================================================================== one library
 def check_library(ctx, lib, d, emu_o, drv, r, thorough, stats, ok_lean):
     text, hdr = emit(lib, d)
+    for g in lib.groups:
+        for f in g.fns:
+            nd = sum(1 for p in f.params if p.default is not None)
+            fd = next((i + 1 for i, p in enumerate(f.params) if p.default is not None), 0)
+            k = "%s np=%d nd=%d first=%d" % (g.kind, len(f.params), nd, fd)
+            stats["shape_hist"][k] = stats["shape_hist"].get(k, 0) + 1
+            if len(f.params) >= 5 and nd >= 2 and fd >= 4:
+                stats["wide_late_defaults"] += 1
     funcs, regs, metas, modreg = split_module(text)
     classes = [c for c, _ in lib.classes]
     located = {}
@@ -799,6 +807,9 @@ def check_library(ctx, lib, d, emu_o, drv, r, thorough, stats, ok_lean):
         g = meta["group"]
         if meta["exp"] is not None:
             stats["matching"] += 1
+            f_ = g.fns[meta["exp"][1]]
+            k = "%s np=%d nargs=%d" % (g.kind, len(f_.params), meta["exp"][2])
+            stats["arity_hist"][k] = stats["arity_hist"].get(k, 0) + 1
             ctx.nontrivial("call:%s:%s:%s" % (g.kind, g.enc(), ",".join(tag_of(v) for v in meta["vals"])))
         else:
             stats["nonmatching"] += 1
@@ -853,7 +864,9 @@ def run(ctx):
         "tools/ccheck/luaemu: emulator of the Lua 5.3 C API subset (no Lua headers/interpreter installed); g++ 12",
         "tools/gen/luagen.py: the instrumented library is what the binding is linked against",
     ]
-    ctx.cov["rule"] = ("per generated library (one fixed + seeded random): every Lua name's emitted function is parsed and compared "
+    ctx.cov["rule"] = ("functions/methods/constructors with 0..6 parameters of mixed Lua tags, defaults starting at every position, "
+                       "several defaulted trailing parameters (histograms in notes: shape_hist, arity_hist); "
+                       "per generated library (one fixed + seeded random): every Lua name's emitted function is parsed and compared "
                        "with the model's skeleton; the binding is compiled against the emulator and every name is called with every "
                        "offered signature, one-tag-off variants, wrong counts and random shapes (methods also with wrong objects). "
                        "Non-trivial: a skeleton with a switch, or a call whose stack matches a signature; distinct = distinct "
@@ -865,7 +878,7 @@ def run(ctx):
     ]
     check_tables_ok = None
     stats = dict(groups=0, switch=0, single=0, gen_disagree=0, run_disagree=0, calls=0, matching=0, nonmatching=0,
-                 violations=0, known=0, libraries=0)
+                 violations=0, known=0, libraries=0, wide_late_defaults=0, shape_hist={}, arity_hist={})
     d0 = common.scratch()
     try:
         emu_o = build_emulator(d0)
@@ -896,7 +909,10 @@ def run(ctx):
     finally:
         common.rmtree(d0)
     for k, v in stats.items():
-        ctx.note(k, v)
+        ctx.note(k, dict(sorted(v.items())) if isinstance(v, dict) else v)
+    # every offered signature (each arity from the first default up to all parameters) must have been driven
+    if stats["libraries"] and stats["wide_late_defaults"] == 0:
+        ctx.tie_broken("lua-generator", "no function with >= 5 parameters and >= 2 defaults starting at position >= 4 was generated")
 
 
 def replay(path):
